@@ -101,7 +101,7 @@ def example_cases():
 
 
 def tiny_cases():
-    for g in games.tiny_reach_games():
+    for g in list(games.tiny_reach_games()) + list(games.dup_edge_games()):
         for prune in (True, False):
             yield dict(kind="game", game=g, prune=prune)
 
